@@ -138,6 +138,8 @@ def one_case(ctx, index: int, rng: random.Random):
         dtype = "float64"  # integer histogram + float weights is a refusal (C13), not generated here
     if dtype == "float16" and (len(data) > 40):
         dtype = "float32"
+    if dtype == "int16" and len(data) > 300:
+        dtype = "int32"  # sums of squared weights must stay inside the type (overflow raised by numpy itself is outside the statement)
     keep_missed = rng.random() < 0.8
     dropna = True if any(isinstance(x, float) and math.isnan(x) for x in data) else rng.random() < 0.7
     if dtype is not None:
